@@ -89,14 +89,19 @@ impl<'i> Parser<'i> {
     }
     spec fn cur(&self) -> SyntaxKind { self.kind_at(self.pos as int) }
     spec fn rem(&self) -> int { self.tokens@.len() - self.pos }
-    spec fn wf(&self) -> bool {
+    // wf = wf_tok (cursor and token vector: what keeps indexing and the progress measure sound; C02)
+    //    && wf_ev  (event discipline: what the tree builder relies on; C01)
+    spec fn wf_tok(&self) -> bool {
         &&& self.pos <= self.tokens@.len()
         &&& forall|i: int| 0 <= i < self.tokens@.len() ==> is_tok(#[trigger] self.tokens@[i].kind)
+        &&& self.depth <= MAX_DEPTH
+    }
+    spec fn wf_ev(&self) -> bool {
         &&& n_adv(self.events@) == self.pos
         &&& nested(self.events@)
         &&& depth(self.events@) >= 0
-        &&& self.depth <= MAX_DEPTH
     }
+    spec fn wf(&self) -> bool { self.wf_tok() && self.wf_ev() }
 }
 // frame: what every grammar function leaves alone
 spec fn is_open(s: Seq<Event>, i: int) -> bool { 0 <= i < s.len() && s[i] is Open }
